@@ -155,9 +155,11 @@ def step (st : DState) (line : String) : DState × String :=
   -- binary level: `sw <src>*` sets the --no-*-config switches, `binrun <elem>*` = get_xvc_config_params + XvcRootInner::new + XvcConfig::new
   | "sw" :: rest => ({ st with sw := rest.filterMap srcOf }, "ok")
   | "binrun" :: rest =>
-    let p0 := cliParams Gen.wiring (fun s => st.sw.contains s) st.default "" (rest.map unesc)
+    -- `XvcCLI::consolidate_config_options`: the -c elements, then verbosity and quiet (here: no -v, no --quiet)
+    let elems := (rest.filter (· != "")).map unesc ++ ["core.verbosity = quiet", "core.quiet = false"]
+    let p0 := cliParams Gen.wiring (fun s => st.sw.contains s) st.default "" elems
     let p := { p0 with projectPath := some "project", localPath := some "local" }
-    if cliPanics (rest.map unesc) then (st, "panic") else (st, showConf (configNew Gen.applications p st.world))
+    if cliPanics elems then (st, "panic") else (st, showConf (configNew Gen.applications p st.world))
   | [""] => (st, "")
   | _ => (st, "bad-op")
 
